@@ -266,8 +266,13 @@ pub fn draw_spelling(rng: &mut Rng, from: &str, target: &str, is_data: bool, std
     let ext = if is_data { "bin" } else { "asm" };
     // `clean` cases use only spellings the property requires to work, so
     // that deep graphs (chains, diamonds, cycles, #once) are actually expanded
-    let style = if clean { *rng.pick(&[0usize, 0, 0, 0, 30, 38, 46, 54, 60, 74, 100, 101, 102, 108]) } else { rng.below(113) };
+    let style = if clean { *rng.pick(&[0usize, 0, 0, 0, 30, 38, 46, 54, 60, 74, 100, 101, 102, 108]) } else { rng.below(116) };
     match style {
+        // a trailing separator (what it means is not stated: only the safety
+        // invariants and the slash-twin relation judge these)
+        113 => format!("{}/", rel),
+        114 => format!("{}\\", rel.replace('/', "\\")),
+        115 => format!("{}/.", rel),
         109 => format!(" ../sentinel.{}", ext),
         110 => format!("\t../{}", rng.pick(&["sentinel.asm", "data.bin", "main.asm"])),
         111 => format!("  ../sub/../sentinel.{}", ext),
@@ -742,6 +747,71 @@ fn case_replay(ctx: &Ctx, v: Violation, case: &Case, plan: SimPlan) -> Replay {
     r
 }
 
+/// The same case with every separator of every written path turned into the
+/// other slash style ("both slash styles are normalised": the twin must
+/// behave exactly like the original, whatever either of them means).
+/// `<std>/…` spellings are left alone — the prefix is only spelled one way.
+pub fn slash_twin(case: &Case) -> Option<Case> {
+    let swap = |s: &str| -> String {
+        if s.starts_with("<std>") {
+            return s.to_string();
+        }
+        s.chars().map(|c| if c == '/' { '\\' } else if c == '\\' { '/' } else { c }).collect()
+    };
+    let mut twin = case.clone();
+    let mut changed = false;
+    for f in twin.files.iter_mut() {
+        for it in f.items.iter_mut() {
+            match it {
+                Item::Include(sp) | Item::IfInclude(sp) | Item::IncFn { spelling: sp, .. } => {
+                    let t = swap(sp);
+                    if t != *sp {
+                        changed = true;
+                        *sp = t;
+                    }
+                }
+                _ => {}
+            }
+        }
+    }
+    if changed {
+        Some(twin)
+    } else {
+        None
+    }
+}
+
+/// One case in five (a function of the case, so that a replay makes the same
+/// choice) is also executed as its slash twin.
+pub fn twin_selected(case: &Case) -> bool {
+    case.fault.is_none() && u8::from_str_radix(&case.digest()[..2], 16).unwrap_or(1) % 5 == 0
+}
+
+pub fn compare_twin(case: &Case, rec: &Record, twin_rec: &Record) -> Vec<Violation> {
+    let ok_a = matches!(rec.outcome, Outcome::Ok);
+    let ok_b = matches!(twin_rec.outcome, Outcome::Ok);
+    let norm = |r: &Record| first_error(&r.stderr).replace('\\', "/");
+    let detail = |what: &str| format!("roots {:?}: {} between the case and its slash twin (every '/' of every written path turned into '\\' and back)\n--- as written: outcome {:?}, first error `{}`, output {:?}\n--- twin: outcome {:?}, first error `{}`, output {:?}", case.roots, what, rec.outcome, first_error(&rec.stderr), bits_of_output(rec), twin_rec.outcome, first_error(&twin_rec.stderr), bits_of_output(twin_rec));
+    if matches!(rec.outcome, Outcome::Panic(_)) || matches!(twin_rec.outcome, Outcome::Panic(_)) {
+        return vec![]; // reported by the ordinary check of whichever case it is
+    }
+    if ok_a != ok_b {
+        return vec![Violation::new("slash-twin-differs", detail("success differs"))];
+    }
+    if ok_a && bits_of_output(rec) != bits_of_output(twin_rec) {
+        return vec![Violation::new("slash-twin-differs", detail("output differs"))];
+    }
+    if !ok_a {
+        // the same kind of error (the text may quote the path as written)
+        let (a, b) = (norm(rec), norm(twin_rec));
+        let head = |s: &str| s.split('`').next().unwrap_or("").to_string();
+        if head(&a) != head(&b) {
+            return vec![Violation::new("slash-twin-differs", detail("the error differs"))];
+        }
+    }
+    vec![]
+}
+
 fn exec_case(ctx: &mut Ctx, case: &Case, verif: &str, out: &mut Vec<Replay>) {
     let job = case.render();
     let faults: Vec<Fault> = case.fault.iter().cloned().collect();
@@ -812,6 +882,20 @@ fn exec_case(ctx: &mut Ctx, case: &Case, verif: &str, out: &mut Vec<Replay>) {
         }
         out.push(case_replay(ctx, v, case, plan.clone()));
     }
+    if twin_selected(case) {
+        if let Some(twin) = slash_twin(case) {
+            let tjob = twin.render();
+            let tplan = SimPlan::single(tjob, vec![], &[0u8; 16], false, false);
+            ctx.pending_c14 = Some(twin.clone());
+            let tres = ctx.exec(&tplan, "C14");
+            ctx.pending_c14 = None;
+            ctx.stats.inc("slash_twins_executed");
+            let rec = &res.runs[0].record;
+            for v in compare_twin(case, rec, &tres.runs[0].record) {
+                out.push(case_replay(ctx, v, case, plan.clone()));
+            }
+        }
+    }
 }
 
 pub fn run(ctx: &mut Ctx, _c: &Corpus) -> Vec<Replay> {
@@ -862,7 +946,17 @@ pub fn classify(r: &Replay) -> Vec<Violation> {
     let faults: Vec<Fault> = case.fault.iter().cloned().collect();
     let plan = SimPlan::single(job.clone(), faults, &[0u8; 16], false, false);
     let res = crate::plan::run_plan(&plan);
-    check(case, &job, &res.runs[0].record)
+    let mut v = check(case, &job, &res.runs[0].record);
+    // (a replay of a twin violation keeps comparing the twins while the
+    // minimiser changes the case, and with it the digest the choice hangs on)
+    if case.fault.is_none() && (twin_selected(case) || r.violation.class == "slash-twin-differs") {
+        if let Some(twin) = slash_twin(case) {
+            let tplan = SimPlan::single(twin.render(), vec![], &[0u8; 16], false, false);
+            let tres = crate::plan::run_plan(&tplan);
+            v.extend(compare_twin(case, &res.runs[0].record, &tres.runs[0].record));
+        }
+    }
+    v
 }
 
 // ===================================================================== Tier B
